@@ -7,7 +7,8 @@ from props._gitobj import GitRepo
 
 ID = "C03"
 THEOREMS = ["C03_payload_commit_refuted", "C03_sig_commit_refuted", "C03_strip_commit_partial", "C03_payload_commit_partial",
-            "C03_sig_commit_partial", "C03_accepts_iff_commit", "C03_fresh_matches_source", "C03_payload_tag_refuted"]
+            "C03_sig_commit_partial", "C03_accepts_iff_commit", "C03_fresh_matches_source", "C03_mutated_commit", "C03_mutated_tag",
+            "C03_payload_tag_refuted", "C03_strip_tag_partial", "C03_payload_tag_partial"]
 MODEL_FILES = ["ObjLines.v", "Ident.v", "Commit.v", "Tag.v", "SigPayload.v"]
 MODELLED = ("plumbing/object/signature.go: isSignatureHeader, stripHeaderSignatures, stripObjectSignatures, parseSignedBytes, "
             "countSignatureBlocks, typeForSignature; commit.go/tag.go: EncodeWithoutSignature, matchesSource, signatureEqual, and the "
